@@ -186,7 +186,7 @@ def tree_case(c):
 def loader_case(c):
     ds = StructDS(c['N'], c['kind'])
     bs = c['bs']
-    dl = DataLoader(ds, batch_size=bs)
+    dl = DataLoader(ds, batch_size=bs, drop_last=bool(c.get('drop_last')))
     L = len(dl)
     if c.get('W'):
         import torch.distributed as dist
